@@ -27,39 +27,61 @@ KEY_MOU = "ImportMintsVersion:ImportAfterMetadataOnlyRewriteKeepsOldVersion"
 def run(ctx):
     quick = ctx.quick()
     nsim = int(os.environ.get("VERIF_C09_NSIM") or (300 if quick else 5000))
-    with concurrent.futures.ThreadPoolExecutor(4) as ex:
+    with concurrent.futures.ThreadPoolExecutor(6) as ex:
         skipmc = bool(os.environ.get("VERIF_C09_SKIPMC"))      # development aid (mutation self-tests of the binding)
         f_mc = ex.submit(lambda: None) if skipmc else ex.submit(model_check, ctx, SPEC, "MC_Import", "MC_Import.cfg" if quick else "MC_Import_thorough.cfg", 5400)
         f_seq = ex.submit(gen_behaviours, ctx, "Beh_Import.cfg", None, 0, "BehSeq")
         f_race = ex.submit(gen_behaviours, ctx, "Beh_Import_race.cfg", None, 0, "BehRace")
         f_sim = ex.submit(gen_behaviours, ctx, "Sim_Import.cfg", nsim, 14, "Sim")
+        # conflicts-allowed family (a document with a winning and a losing live leaf; external write; import by feed / read)
+        f_mcc = ex.submit(lambda: None) if skipmc else ex.submit(model_check, ctx, SPEC, "MC_Import", "MC_Import_conflict.cfg", 3000, False)
+        f_cf = ex.submit(gen_behaviours, ctx, "Beh_Import_conflict.cfg", None, 0, "BehConflict")
         mc, b_seq, b_race, b_sim = f_mc.result(), f_seq.result(), f_race.result(), f_sim.result()
+        f_mcc.result()
+        b_cf = f_cf.result()
     if mc is not None:
         ctx.cov["exhaustive"] = True
         final_coverage(ctx, mc)
     cap = int(os.environ.get("VERIF_C09_CAP") or (500 if quick else 100000))
     behs, seen = [], set()
-    for src, lst in (("seq", pick(ctx, b_seq, cap)), ("race", pick(ctx, b_race, cap)), ("sim", b_sim)):
+    capc = int(os.environ.get("VERIF_C09_CAPC") or (150 if quick else 4000))
+    for src, lst in (("seq", pick(ctx, b_seq, cap)), ("race", pick(ctx, b_race, cap)), ("sim", b_sim),
+                     ("conflict", [{"steps": st} for st in DIRECTED_CONFLICT] + pick(ctx, b_cf, capc))):
         for b in lst:
             k = json.dumps(b["steps"], sort_keys=True)
             if k not in seen:
                 seen.add(k)
                 behs.append({"steps": b["steps"], "src": src})
-    ctx.cov["behaviour_sources"] = {"seq_all": len(b_seq), "race_all": len(b_race), "sim": len(b_sim), "replayed": len(behs)}
+    ctx.cov["behaviour_sources"] = {"seq_all": len(b_seq), "race_all": len(b_race), "sim": len(b_sim), "conflict_all": len(b_cf), "replayed": len(behs)}
     ctx.cov["behaviour_action_mix"] = action_mix(behs)
     replay_and_validate(ctx, behs)
     ctx.cov["rule"] = ("behaviours = sequential: every action sequence of length 5 over {external set, external delete, metadata-only rewrite (resync), "
                        "feed delivery of ANY captured mutation (late / twice / out of order), cache delivery, gateway read, gateway write}; racing: every "
                        "interleaving of length 6 of a smaller instance with the feed import, the gateway read and the gateway write each split into "
-                       "compute and CAS write; plus seeded TLC simulations of length 14 (quick tier: a seeded sample of the two exhaustive sets, thorough: all); "
+                       "compute and CAS write; conflicts-allowed family: a document with a winning and a losing live leaf (newest revision on either), then every "
+                       "sequence of 4 steps over external set / feed / cache / read (split) / resync plus 10 directed behaviours; plus seeded TLC simulations of length 14 (quick tier: a seeded sample of the two exhaustive sets, thorough: all); "
                        "each is forced on the real code (captured feeds, UpdateCallback gate), then drained (every undelivered mutation delivered) and read; "
                        "non-trivial = the real run performed an import (a revision created by an import action)")
     ctx.assumptions += [
         "one document, one Sync Gateway node, Rosmar store (its CAS / xattr / feed semantics are the environment, e.g. a set over a tombstone drops the xattrs)",
         "external writers write bodies only (never xattrs): _vv.cv = _sync.rev cv always; cross-cluster (XDCR / ECCV) attribution is out of scope",
         "every external write carries a fresh body (an external rewrite of the identical body is indistinguishable from no write by design)",
-        "no import filter, no user xattr key, conflicts disallowed; while a gateway read / write is in flight no external delete and no set over a tombstone",
+        "no import filter; conflicts disallowed except in the conflicts-allowed family (two live leaves, no gateway write / delete / user xattr there); while a gateway read / write is in flight no external delete and no set over a tombstone",
         "a feed import of one document is sequential (one vbucket, one worker); the metadata-only rewrite is ResyncDocument(regenerateSequences)"]
+
+
+def _cf(nw, *steps):
+    return [{"a": "Conflict", "i": nw}] + [{"a": a, "i": i} for a, i in steps]
+
+
+# directed behaviours of the conflicts-allowed family (always replayed): newest revision on the winner (1) / on the loser (0)
+# x import by the feed with redelivery and delivery of the import's own mutation / by repeated reads / feed and read racing
+DIRECTED_CONFLICT = [b for nw in (0, 1) for b in (
+    _cf(nw, ("ExtSet", 1), ("Feed", 4), ("Feed", 4), ("Feed", 5)),
+    _cf(nw, ("ExtSet", 1), ("Get", 0), ("Get", 0), ("Feed", 4)),
+    _cf(nw, ("ExtSet", 1), ("FeedBegin", 4), ("Get", 0), ("FeedRel", 0)),
+    _cf(nw, ("ExtSet", 1), ("GetBegin", 0), ("Feed", 4), ("GetRel", 0)),
+    _cf(nw, ("ExtSet", 1), ("Feed", 4), ("ExtSet", 2), ("Get", 0)))]
 
 
 def pick(ctx, lst, cap):
